@@ -61,6 +61,7 @@ type c01Obs struct {
 	St     []string `json:"st"`
 	Wd     []string `json:"wd"` // Task.WaitedStatus (never set: Hold)
 	Run    []int    `json:"run"`
+	Dying  []int    `json:"dying"` // tombs that have been killed
 	Ready  bool     `json:"ready"`
 	Cst    string   `json:"cst"`
 	Rt     bool     `json:"rt"`
@@ -206,6 +207,20 @@ func c01New(in c01In) *c01Run {
 	return h
 }
 
+// dyingIDs: running tasks whose tomb has been killed (deterministic: read under r.mu, no handler has to notice)
+func (h *c01Run) dyingIDs() []int {
+	h.r.mu.Lock()
+	defer h.r.mu.Unlock()
+	out := []int{}
+	for id, tb := range h.r.tombs {
+		if i, ok := h.idx[id]; ok && tb.Err() != tomb.ErrStillAlive {
+			out = append(out, i)
+		}
+	}
+	sort.Ints(out)
+	return out
+}
+
 func (h *c01Run) tombIDs() map[int]bool {
 	h.r.mu.Lock()
 	defer h.r.mu.Unlock()
@@ -323,7 +338,8 @@ func (h *c01Run) finish(i int, o string, d int64, step int) {
 	switch o {
 	case "ok":
 	case "err":
-		msg := fmt.Sprintf("fail-%d-%d", i, step)
+		// some messages contain format verbs: the runner must log the error text verbatim
+		msg := fmt.Sprintf("fail-%d-%d", i, step) + []string{"", "", " 100% full", " %s", " %d%%", " %!", " /a%2Fb"}[(i+step)%7]
 		// the message is what Change.Err must report for this task if this is what puts it into Error
 		h.failMsg[i] = msg
 		err = errors.New(msg)
@@ -336,7 +352,7 @@ func (h *c01Run) finish(i int, o string, d int64, step int) {
 			h.retryAt[i] = h.cur + d
 		}
 	case "logretry":
-		msg := fmt.Sprintf("warn-%d-%d", i, step)
+		msg := fmt.Sprintf("warn-%d-%d", i, step) + []string{"", " 50% done", " %v"}[(i+step)%3]
 		h.logged[i] = append(h.logged[i], msg)
 		err = &c01LogRetry{msg}
 	case "wait":
@@ -380,9 +396,10 @@ func (h *c01Run) abort() {
 
 func (h *c01Run) observe(starts []string) c01Obs {
 	tombs := h.tombIDs()
+	dying := h.dyingIDs()
 	h.st.Lock()
 	defer h.st.Unlock()
-	o := c01Obs{Run: []int{}, Err: []int{}, Failed: []int{}, Starts: starts, Panic: h.panicked, HookOK: h.hookOK}
+	o := c01Obs{Run: []int{}, Dying: dying, Err: []int{}, Failed: []int{}, Starts: starts, Panic: h.panicked, HookOK: h.hookOK}
 	for _, t := range h.tasks {
 		o.St = append(o.St, c01Coq(t.Status()))
 		wd := "Hold"
@@ -489,6 +506,18 @@ func (h *c01Run) outcome(r *vh.Rand, i int, failDo, failUndo map[int]bool, drain
 	sts := h.statuses()
 	e := c01Ev{K: "finish", T: i, O: "ok"}
 	undoing := sts[i] == UndoingStatus
+	tombDying := false
+	for _, d := range h.dyingIDs() {
+		if d == i {
+			tombDying = true
+		}
+	}
+	if tombDying && sts[i] != AbortStatus {
+		// a tomb-honouring handler whose tomb was killed stops and reports it (only happens if the runner kills the tomb
+		// of a task that was not aborted)
+		e.O = "err"
+		return e
+	}
 	if sts[i] == AbortStatus {
 		// a killed handler normally answers Retry
 		switch x := r.Intn(10); {
@@ -747,7 +776,7 @@ func c01Mask(l []int) string {
 }
 
 func c01CoqObs(o c01Obs) string {
-	return "(OB " + c01Vec(o.St) + " " + c01Vec(o.Wd) + " " + c01Mask(o.Run) + " " + vh.CoqBool(o.Ready) + " " + o.Cst + " " +
+	return "(OB " + c01Vec(o.St) + " " + c01Vec(o.Wd) + " " + c01Mask(o.Run) + " " + c01Mask(o.Dying) + " " + vh.CoqBool(o.Ready) + " " + o.Cst + " " +
 		vh.CoqBool(o.Rt) + " " + c01Mask(o.Err) + " " + c01Mask(o.Failed) + " " + vh.CoqBool(o.Panic) + " " +
 		c01List(o.Starts) + " " + vh.CoqBool(o.HookOK) + ")"
 }
@@ -970,6 +999,30 @@ func c01Parked(r *vh.Rand) c01In {
 	return c01In{Tasks: tasks, Script: script, Drain: true, Seed: r.U64()}
 }
 
+// c01Delayed: 2-4 independent tasks whose handlers answer Retry with different delays (1, 2, 3 minutes); the clock
+// advances in steps smaller than the delays with an Ensure (several real passes) after every step: no task may start
+// before its own time, whatever the order in which Ensure visits them.
+func c01Delayed(r *vh.Rand) c01In {
+	k := r.Range(2, 4)
+	var lg []c01Task
+	for i := 0; i < k; i++ {
+		lg = append(lg, c01Task{Lanes: []int{}, Undo: true, Waits: []int{}})
+	}
+	sc := []c01Ev{{K: "ensure"}}
+	delays := r.Perm(k)
+	for i := 0; i < k; i++ {
+		sc = append(sc, c01Ev{K: "finish", T: i, O: "retry", D: int64(60 * (delays[i] + 1))})
+	}
+	for t := 0; t < 60*(k+1); t += 20 {
+		sc = append(sc, c01Ev{K: "ensure"}, c01Ev{K: "tick", D: 20}, c01Ev{K: "ensure"})
+		if r.Chance(1, 4) {
+			sc = append(sc, c01Ev{K: "ensure"})
+		}
+	}
+	tasks, script := c01Place(r, lg, sc)
+	return c01In{Tasks: tasks, Script: script, Drain: true, Seed: r.U64()}
+}
+
 func c01Gen(mode string) func(r *vh.Rand, tier string, n int) []c01In {
 	return func(r *vh.Rand, tier string, n int) []c01In {
 		if n <= 0 {
@@ -1024,6 +1077,9 @@ func c01Gen(mode string) func(r *vh.Rand, tier string, n int) []c01In {
 				continue
 			case x < 9:
 				out = append(out, c01Parked(r))
+				continue
+			case x < 11:
+				out = append(out, c01Delayed(r))
 				continue
 			}
 			in := c01In{Tasks: c01Graph(r, maxN), Seed: r.U64(), Steps: r.Range(5, 60)}
